@@ -23,7 +23,7 @@ ENGINES = [
 CHECKS = {
     "C03": {
         "technique": "runtime monitor with forest model: long random histories of public attach/detach/move operations over 2-5 IRs; get_by_uuid compared with a reachability scan for every node of the universe after every operation",
-        "text": "Held after every one of ~25k operations per quick run (480 histories, ~220 distinct operation kinds incl. set/list mixins, constructors stealing children, subtree moves between IRs, save->load joining the world with UUID twins): every attached node is found, every detached/moved-away node and fresh UUID gives None, in every live IR.",
+        "text": "Held after every one of ~25k operations per quick run (480 histories, ~250 distinct operation kinds incl. set/list mixins with plain / owning-collection / self operands and one-shot iterators, constructors stealing children or another parent's live collection, ping-pong moves, one bulk call of up to 66 nodes, subtree moves between IRs, save->load joining the world with UUID twins): every attached node is found, every detached/moved-away node and fresh UUID gives None, in every live IR.",
         "design_ref": "DESIGN.md section 5 C03",
         "note": "Operations that would attach two nodes with one UUID to one IR are skipped (the property's precondition); worlds are small (20-60 nodes).",
     },
@@ -35,7 +35,7 @@ CHECKS = {
     },
     "C05": {
         "technique": "runtime monitor with scan oracle: layout edit histories, all 18 interval-scope and 18 section/module/IR-scope block lookups probed at check points with queries built from every critical coordinate +-1, sandwich comparison must<=got<=may",
-        "text": "Held on ~1.3M lookup comparisons per quick run (320 histories, tiny coordinate space so overlaps/equal offsets/zero sizes are the norm, every 4th history around 2^63/2^64-1, points, ranges with steps 1,2,3,7, empty and reversed ranges, complete point sweep at the end, save->load->continue): no duplicate, nothing outside the scan, nothing the scan demands missing; kind variants equal the kind filter.",
+        "text": "Held on ~1.5M lookup comparisons per quick run (320 histories, tiny coordinate space so overlaps/equal offsets/zero sizes are the norm, siblings with identical coordinates, every 4th history around 2^63/2^64-1 incl. sums beyond 2^64, 8% 'medium' worlds with tens of members per container, points, ranges with steps 1,2,3,7, empty and reversed ranges, complete point sweep at the end, lookup schedules dense/sparse/rare/end-only, bursts and toggles aimed at one container, save->load->continue): no duplicate, nothing outside the scan, nothing the scan demands missing; kind variants equal the kind filter. Thorough adds worlds with hundreds of blocks. Failing histories are minimised by delta debugging.",
         "design_ref": "DESIGN.md section 5 C05",
         "note": "'on' with step>1 and blocks outside their interval's extent are judged by the sandwich, as the property allows; <=8 intervals, <=16 blocks.",
     },
@@ -59,7 +59,7 @@ CHECKS = {
     },
     "C12": {
         "technique": "replica comparison under different lookup schedules (none / every step / bursts / threshold-targeted / twice) of one edit history, identical complete final probe; diagnostic hook classifies the lazy-index maintenance path taken",
-        "text": "160 histories x 5 schedules per quick run; every final answer (all C05/C06/C13 lookups + section extents, ~22k per replica) identical across schedules. Evidence shows first-use, incremental-replay and rebuild paths and pending<,=,> size relations all observed on both tree kinds (non-empty collections only).",
+        "text": "150 histories x 5 schedules per quick run plus a scale stream (one container with 40/300/1100/2100 members, thorough up to 4200, three schedules); every final answer (all C05/C06/C13 lookups + section extents) identical across schedules. Evidence shows first-use, incremental-replay and rebuild paths and pending<,=,> size relations all observed on both tree kinds (non-empty collections only).",
         "design_ref": "DESIGN.md section 5 C12",
         "note": "Schedules are placements of lookups inside a deterministic history, explored by construction, not by a scheduler; path counters rely on a wrapper around a private method (evidence only, but required for 'held').",
     },
@@ -71,13 +71,13 @@ CHECKS = {
     },
     "C14": {
         "technique": "runtime monitor over save with per-table history classes: files assembled as raw messages, tables left/read/mutated/assigned/renamed over up to 4 generations, written (type_name, bytes) parsed with generated classes and compared with the class's demand using the reference codec",
-        "text": "~60k table checks per quick run: untouched tables (known, unknown, partially unknown, non-canonical) byte-identical; touched supported tables equal the reference encoding of the current value under the current type name (stale bytes distinguishable in >90% of touched cases); unknown-typed tables byte-identical even after being read.",
+        "text": "~70k table checks per quick run: untouched tables (known, unknown, partially unknown, non-canonical incl. duplicate set/map entries, bool bytes other than 0/1, trailing bytes) byte-identical; touched supported tables equal both the reference encoding of the current value under the current type name and an independent harness-side model of the value through the table's history (so shared or stale state cannot hide behind the implementation's own .data); byte-identical twin tables in one IR; unknown-typed tables byte-identical even after being read.",
         "design_ref": "DESIGN.md section 5 C14",
         "note": "New type names are compatible widenings; unknown-typed tables are only left or read.",
     },
     "C16": {
         "technique": "lock-step runtime monitor against the built-in list/set/dict on the same elements (return value, exception type, resulting contents modulo move-instead-of-duplicate) + world check after every call, also after calls that raise",
-        "text": "MutableSequence on ir.modules (incl. extended slices, reverse, +=, self re-insertion), MutableSet on the five node sets (incl. binary operators both ways, comparisons, update with 0-2 iterables, in-place operators), MutableMapping on symbolic_expressions (incl. views, ==, popitem, setdefault, whole-mapping assignment); ~230 operation kinds per quick run.",
+        "text": "MutableSequence on ir.modules (incl. extended slices, reverse, +=, index with bounds, self re-insertion, arguments as list/tuple/one-shot iterators/another IR's live list), MutableSet on the five node sets (binary operators both ways, comparisons, update with 0-2 iterables, in-place operators with plain sets, other owning collections and the collection itself, other-kind nodes as non-members), MutableMapping on symbolic_expressions (views kept across operations, ==, popitem, setdefault, whole-mapping assignment); world check after every call, also after calls that raise; ~260 operation kinds per quick run.",
         "design_ref": "DESIGN.md section 5 C16",
         "note": "Same-list re-insertion judged by the weak contract stated in DESIGN.md; values passed in one call are distinct.",
     },
@@ -89,7 +89,7 @@ CHECKS = {
     },
     "C01": {
         "technique": "runtime monitor with reference model: generated specs built through the public API under random construction strategies, snapshot-equality oracle across save/load generations, deep_eq both ways, message-level re-save comparison",
-        "text": "Held on every generated self-contained IR of this run (0-3 modules, all boundary classes of the quantifier tracked as a checklist in evidence, ~50 construction routes): loaded == saved by canonical snapshot of public attributes incl. decoded AuxData, deep_eq both directions, re-saved file equal as a normalised message, up to 3 generations. Exploration: sizes bounded (<=9 children per collection), so size-dependent defects are out of reach.",
+        "text": "Held on every generated self-contained IR of this run (0-3 modules, all boundary classes of the quantifier tracked as a checklist in evidence, ~50 construction routes, label twins None/all-default/one-flag between the same endpoints): loaded == saved by canonical snapshot of public attributes incl. decoded AuxData, deep_eq both directions, re-saved file equal as a normalised message, up to 3 generations; half of the IRs are then edited after the first save (public attributes, AuxData containers through references the caller kept) and the second save must describe the edited IR; stream- and path-based save/load. Thorough adds IRs with thousands of nodes and the pure-Python protobuf backend. Exploration: structure sizes are bounded.",
         "design_ref": "DESIGN.md section 5 C01",
         "note": "Trusts gtmon/irbuild.snapshot (public attributes only) as the meaning of observable content, the mini-protoc build of the schema, and the protobuf runtime.",
     },
@@ -119,7 +119,7 @@ CHECKS = {
     },
     "C17": {
         "technique": "fault enumeration at the loader boundary: every truncation, every single-bit flip of small seed files (sampled above), byte substitutions, 8x256 header bytes, header/version rules, structural faults by message editing; coherence oracle (world check, typed references, re-save) on every returned IR; CPU-time bound per load",
-        "text": "Per seed file every cut point and every header byte value are enumerated completely, bit flips completely up to the size bound; ~125k fault cases per quick run. Every accepted file's IR passes the C03/C04/C10 world check, has typed references, stored bytes <= size and saves again; header faults always raise ValueError; no load exceeded the CPU bound.",
+        "text": "Per seed file every cut point and every header byte value are enumerated completely, bit flips completely up to the size bound, plus byte substitutions, multi-byte splices and structural faults by message editing (dangling/ill-typed references, any two nodes sharing a UUID, one UUID used three times across modules, two faults at once, unknown enum numbers, wrong-length UUIDs, empty one-ofs, contents longer than size); ~126k fault cases per quick run, ~11M thorough. Every accepted file's IR passes the C03/C04/C10 world check, has typed references, stored bytes <= size and saves again; header faults always raise ValueError; no load exceeded the CPU bound.",
         "design_ref": "DESIGN.md section 5 C17",
         "note": "'Never hangs' is decided as returns/raises within 30 s CPU for files <= 64 KiB; multi-byte corruptions are only sampled through structural faults.",
     },
